@@ -350,7 +350,8 @@ theorem expr_sem : ∀ (e : Expr) (used : Bool) (s : St) (r : List String) (s' :
       show Complete ρ' (stringToString lit).toList lit.toList
       rw [this]
       apply complete_literal
-      simpa [Src.plainLit, List.all_eq_true] using hp
+      have hp' : ∀ c ∈ lit.toList, (¬c = '$' ∧ ¬c = '`') ∧ c.toNat < 128 := by simpa [Src.plainLit, List.all_eq_true] using hp
+      exact fun c hc => by simpa using (hp' c hc).1
     · simp at hs
   | .varEval x, used, s, r, s', env, v, h0, hc, hs => by
     unfold Tr.evalExpr at hc
